@@ -3,6 +3,8 @@ import CuqiVerif.Model.QMat
 import CuqiVerif.Model.C18
 import CuqiVerif.Model.C18_testproblems
 import CuqiVerif.Model.C18_interp
+import CuqiVerif.Model.C18_history
+import CuqiVerif.Model.C18_shapes
 open CuqiVerif CuqiVerif.Proto CuqiVerif.C18
 
 /-!
@@ -28,6 +30,12 @@ Line protocol of the C18 model (R = Rat).  `<fam>` is ten tokens `A0 A1 D E b0 b
         -> `ok <max_iter> <time_steps> <grid_sol> <grid_obs> <equal> <Dxx> <model.forward(x)>` | `err:<Class>`
   obsq   <gridops> <u> <om>                              as `obss`, with the exact quadratic spline (`interp1dQuadratic`) instead of leaf data `W`
   interpq <gs> <u> <go>                                  -> `v:<vec>` | `err:<Class>`   (`interp1d(gs, u, kind='quadratic')(go)` exactly)
+  hist   <n> <method> <solver> <ts> <fam> <np> <ops>     ONE TimeDependentLinearPDE object; ops `|`-separated:
+          `a:<p>` assemble, `as:<t>` assemble_step, `s` solve, `m:<string>` method setter, `ts:<vec>` time_steps, `f:<x>` PDEModel forward (up to observe)
+        -> per op `<out>~<_parameter|none>~<assembled p>@<assembled t>|none`, out = `u` | `err:<Class>` | `ok~<levels>~<info>`, joined by `|`
+  timeb  <method> <solver> <ts> <op> <src> <ic>           `solve()` with form components of arbitrary shape (time-independent here)
+          op: mat:<m> | sc:<q> | vec:<v>    src: vec:<v> | sc:<q> | col:<v> | row:<v>    ic: vec:<v> | sc:<q> | col:<v>
+        -> `ok <n> <levels> <info>` | `err:<Class>`
   fmap  : id | sq | aff:<a>:<b>          gm: none | pick:<i,j,…> | mid | shift
 
   solver: plain | t0 | t1 | t2 | t3 | raise       (what `linalg_solve` returns: x, (), (x,), (x, b[0]), (x, b[0], A[0,0]))
@@ -233,6 +241,83 @@ def parseGm (s : String) : Option GridMap :=
 
 def matLr (r c : Nat) (A : Mat Q) : List (List Q) := (List.range r).map fun i => (List.range c).map fun j => A i j
 
+def parseHOp (tk : String) : Option (HOp (List Q) Q) :=
+  if tk = "s" then some .solve
+  else if tk.startsWith "as:" then (parseRat (tk.drop 3).toString).map .assembleStep
+  else if tk.startsWith "a:" then (parseVec (tk.drop 2).toString).map .assemble
+  else if tk.startsWith "m:" then some (.setMethod (tk.drop 2).toString)
+  else if tk.startsWith "ts:" then (if tk = "ts:" then some (.setTs []) else (parseVec (tk.drop 3).toString).map .setTs)
+  else if tk.startsWith "f:" then (parseVec (tk.drop 2).toString).map .forward
+  else none
+
+def fmtHOut (n : Nat) : HOut Q Q → String
+  | .unit => "u"
+  | .err e => fmtErr e
+  | .solved levels info => s!"ok~{fmtMat (levels.map fun u => vecL n (rd u))}~{fmtInfo info}"
+
+def fmtHState (o : TimeObj (List Q) Q Q) : String :=
+  let p := match o.param with | none => "none" | some p => fmtVec p
+  let l := match o.lastStep with | none => "none" | some (p, t) => s!"{fmtVec p}@{fmtRat t}"
+  s!"{p}~{l}"
+
+def runHist (n : Nat) (o : TimeObj (List Q) Q Q) : List (HOp (List Q) Q) → List String
+  | [] => []
+  | op :: rest =>
+    let (o1, out) := o.step op
+    s!"{fmtHOut n out}~{fmtHState o1}" :: runHist n o1 rest
+
+def parseOpArg (s : String) : Option (OpArg Q) :=
+  if s.startsWith "mat:" then (parseMat (s.drop 4).toString).bind fun m =>
+    if m.all (fun r => r.length == m.length) then some (.mat m.length (matFn m)) else none
+  else if s.startsWith "sc:" then (parseRat (s.drop 3).toString).map .scalar
+  else if s.startsWith "vec:" then (parseVec (s.drop 4).toString).map fun v => .vec v.length (vecFn v)
+  else none
+
+def parseSrcArg (s : String) : Option (SrcArg Q) :=
+  if s.startsWith "vec:" then (parseVec (s.drop 4).toString).map fun v => .vec v.length (vecFn v)
+  else if s.startsWith "sc:" then (parseRat (s.drop 3).toString).map .scalar
+  else if s.startsWith "col:" then (parseVec (s.drop 4).toString).map fun v => .col v.length (vecFn v)
+  else if s.startsWith "row:" then (parseVec (s.drop 4).toString).map fun v => .row v.length (vecFn v)
+  else none
+
+def parseIcArg (s : String) : Option (IcArg Q) :=
+  if s.startsWith "vec:" then (parseVec (s.drop 4).toString).map fun v => .vec v.length (vecFn v)
+  else if s.startsWith "sc:" then (parseRat (s.drop 3).toString).map .scalar
+  else if s.startsWith "col:" then (parseVec (s.drop 4).toString).map fun v => .col v.length (vecFn v)
+  else none
+
+def stepShapes : List String → String
+  | ["timeb", method, kind, ts, op, src, ic] =>
+    match parseVec ts, parseOpArg op, parseSrcArg src, parseIcArg ic with
+    | some ts, some op, some src, some ic =>
+      if !(solverKinds.contains kind) then "bad-op" else
+      match Method.ofString method with
+      | none => "err:ValueError"
+      | some m =>
+        -- the solver needs the size: it is `len(ic)`
+        let n := match bcIc ic with | .ok (n, _) => n | .error _ => 0
+        match solveTimeShapes m (fun _ => { op := op, src := src, ic := ic }) (mkSolver n kind) ts with
+        | .error e => fmtErr e
+        | .ok (n, levels, info) => s!"ok {n} {fmtMat (levels.map fun u => vecL n (rd u))} {fmtInfo info}"
+    | _, _, _, _ => "bad-op"
+  | _ => "bad-op"
+
+def stepHist : List String → String
+  | "hist" :: n :: method :: kind :: ts :: rest =>
+    match n.toNat?, parseVec ts, rest with
+    | some n, some ts, [a0, a1, d, e, b0, b1, b, c0, c1, c, np, ops] =>
+      match np.toNat? with
+      | none => "bad-op"
+      | some np =>
+      match parseFam n np [a0, a1, d, e, b0, b1, b, c0, c1, c], Method.ofString method, (ops.splitOn "|").mapM parseHOp with
+      | some fam, some m, some hops =>
+        if !(solverKinds.contains kind) then "bad-op" else
+        let o : TimeObj (List Q) Q Q := { n := n, formP := fun p t => fam.form p t, solver := mkSolver n kind, method := m, ts := ts }
+        "|".intercalate (runHist n o hops)
+      | _, _, _ => "bad-op"
+    | _, _, _ => "bad-op"
+  | l => stepShapes l
+
 def stepTP : List String → String
   | ["tpp", dim, endpoint, src, fmap, gm, kind, x, w] =>
     match dim.toNat?, parseRat endpoint, parseVec src, parseFmap fmap, parseGm gm, parseVec x,
@@ -294,7 +379,7 @@ def stepTP : List String → String
               | .ok a => fmtArr a
             s!"ok {s.maxIter} {fmtVec s.timeSteps} {fmtOptGrid s.grids.sol} {fmtOptGrid s.grids.obs} {fmtBool s.grids.equal} {fmtMat (matLr s.N s.N (heatDxx s.dx))} {out}"
     | _, _, _, _, _, _, _ => "bad-op"
-  | _ => "bad-op"
+  | l => stepHist l
 
 def step : List String → String
   | "steady" :: n :: kind :: rest =>
